@@ -130,9 +130,10 @@ let run_model (parts : string list) (c : case) : (string * jv) list =
              | None -> [ ("model_ast", JS (sexp_string out)) ]
              | Some impl_out ->
                  (match first_diff out impl_out [] with
-                  | None -> [ ("ast_equal", JB true) ]
+                  | None -> [ ("ast_equal", JB true); ("ast_equal_nospan", JB true) ]
                   | Some (path, a, b) ->
                       [ ("ast_equal", JB false);
+                        ("ast_equal_nospan", JB (first_diff_nospan out impl_out = None));
                         ("diff_path", JL (List.map (fun i -> JI i) path));
                         ("diff_model", JS (trunc (sexp_string a)));
                         ("diff_impl", JS (trunc (sexp_string b))) ]) in
